@@ -81,6 +81,8 @@ struct opinfo
     std::atomic<int> values{0};
     std::atomic<int> errors{0};
     std::atomic<bool> launched{false};
+    bool owned{false};    // the buffer travels BY VALUE through the sender chain: transform_mpi owns it
+    std::atomic<int> released{0};
 };
 
 struct pairinfo
@@ -105,6 +107,69 @@ static unsigned char pat(int tag, std::size_t i)
     return static_cast<unsigned char>(tag * 131u + i * 7u + (i >> 8) * 13u + 1u);
 }
 
+// A move-only buffer handle that is handed to transform_mpi BY VALUE: the adaptor decay-copies it into its
+// operation state and passes a reference to that copy to the MPI call, so the adaptor owns the memory MPI works on and
+// has to keep it until MPI reports the request complete.  The destructor of the owning handle logs the release
+// (`x.rel`, ordered against the mpi.* events by the model), checks that a receive buffer has been filled, and
+// scrubs the memory so that a send buffer released too early is seen by the matching receive.
+struct owned_buf
+{
+    unsigned char* p{nullptr};
+    std::size_t n{0};
+    int id{-1};
+    int tag{0};
+    bool recv{false};
+    owned_buf(int id_, std::size_t n_, int tag_, bool recv_)
+      : p(new unsigned char[n_ ? n_ : 1])
+      , n(n_)
+      , id(id_)
+      , tag(tag_)
+      , recv(recv_)
+    {
+        for (std::size_t i = 0; i < n; ++i) p[i] = recv ? static_cast<unsigned char>(~pat(tag, i)) : pat(tag, i);
+    }
+    owned_buf(owned_buf&& o) noexcept
+      : p(o.p)
+      , n(o.n)
+      , id(o.id)
+      , tag(o.tag)
+      , recv(o.recv)
+    {
+        o.p = nullptr;
+    }
+    owned_buf& operator=(owned_buf&& o) noexcept
+    {
+        if (this != &o)
+        {
+            release();
+            p = o.p; n = o.n; id = o.id; tag = o.tag; recv = o.recv;
+            o.p = nullptr;
+        }
+        return *this;
+    }
+    owned_buf(owned_buf const&) = delete;
+    owned_buf& operator=(owned_buf const&) = delete;
+    ~owned_buf() { release(); }
+    void release()
+    {
+        if (!p) return;
+        e2::note("x.rel", nullptr, std::uint64_t(id), recv ? 1 : 0);
+        (*g_ops)[id].released.fetch_add(1);
+        if (recv)
+        {
+            std::size_t bad = 0;
+            for (std::size_t i = 0; i < n; ++i)
+                if (p[i] != pat(tag, i)) ++bad;
+            if (bad != 0)
+                monitor("arguments released before the transfer: the buffer owned by receive " + std::to_string(id) + " (" +
+                    std::to_string(n) + " bytes) was destroyed with " + std::to_string(bad) + " bytes not yet received");
+        }
+        std::memset(p, 0xDD, n);
+        delete[] p;
+        p = nullptr;
+    }
+};
+
 static void complete(int id, int what)    // what: 0 value, 1 error, 2 stopped
 {
     opinfo& o = (*g_ops)[id];
@@ -116,7 +181,7 @@ static void complete(int id, int what)    // what: 0 value, 1 error, 2 stopped
     if (what == 0) o.values.fetch_add(1);
     else o.errors.fetch_add(1);
     if (what == 2) monitor("operation " + std::to_string(id) + " completed with set_stopped");
-    if (o.k == kind::recv && what == 0)
+    if (o.k == kind::recv && what == 0 && !o.owned)
     {
         // the received data must be completely visible to the continuation
         pairinfo& p = (*g_pairs)[o.pair];
@@ -182,6 +247,28 @@ static void launch_op(int id, rng& r)
     pairinfo& p = (*g_pairs)[o.pair];
     ex::thread_pool_scheduler sched{};
     bool as_lambda = r.below(3) == 0;    // void-returning callable instead of the MPI function pointer
+    if (o.owned && (o.k == kind::recv || o.k == kind::send))
+    {
+        // the MPI callable logs which owned argument it was given (`x.call`) right before the MPI call, so that the
+        // driver can attach the argument to the operation whose `mpi.post` the same thread logs next
+        if (o.k == kind::recv)
+            launch(ex::transfer_just(sched, owned_buf(id, p.size, p.tag, true), int(p.size), MPI_BYTE, 0, p.tag, g_comm) |
+                    mpi::transform_mpi([](owned_buf& b, int c, MPI_Datatype t, int src, int tag, MPI_Comm comm,
+                                           MPI_Request* rq) {
+                        e2::note("x.call", nullptr, std::uint64_t(b.id), 1);
+                        MPI_Irecv(b.p, c, t, src, tag, comm, rq);
+                    }),
+                id);
+        else
+            launch(ex::transfer_just(sched, owned_buf(id, p.size, p.tag, false), int(p.size), MPI_BYTE, 0, p.tag, g_comm) |
+                    mpi::transform_mpi([](owned_buf const& b, int c, MPI_Datatype t, int dst, int tag, MPI_Comm comm,
+                                           MPI_Request* rq) {
+                        e2::note("x.call", nullptr, std::uint64_t(b.id), 0);
+                        MPI_Isend(b.p, c, t, dst, tag, comm, rq);
+                    }),
+                id);
+        return;
+    }
     switch (o.k)
     {
     case kind::recv:
@@ -339,6 +426,9 @@ static int pika_main()
                 (*g_ops)[b].k = k2;
                 (*g_ops)[b].pair = pi;
             }
+            // a third of the plain receives / sends own their buffer (passed by value through the chain)
+            if (k1 == kind::recv) (*g_ops)[a].owned = r.below(3) == 0;
+            if (b >= 0 && k1 != kind::trunc) (*g_ops)[b].owned = r.below(3) == 0;
             auto& sl = slices[r.below(std::uint32_t(slices.size()))];
             // the two operations of a pair are launched by the same submitter, in random order
             if (b >= 0 && r.below(2)) { sl.push_back(b); sl.push_back(a); }
@@ -395,6 +485,13 @@ static int pika_main()
         // release the operation states of this round (their addresses may be reused by the next round)
         for (auto* os : g_states) delete os;
         g_states.clear();
+        for (int i = first_op; i < next_op; ++i)
+        {
+            opinfo& o = (*g_ops)[i];
+            if (o.owned && o.launched.load() && o.released.load() != 1)
+                monitor("the buffer owned by operation " + std::to_string(i) + " was released " + std::to_string(o.released.load()) +
+                    " times by the end of the round");
+        }
         g_phase.store(10 * round + 6);
     }
     g_phase.store(1000);
